@@ -110,6 +110,13 @@ theorem histReset_other_fails (P : Params) (h : HSt) (g g0 : Labels) (ts : Optio
 
 /-! ## what one line does to the loop state -/
 
+/-- a classic sample is not skipped -/
+theorem histStep_classic (P : Params) (n : Str) (h : HSt) (s : OSample) (hs : s.nh = none) :
+    histStep P n h s = histStepBody P n h s := by
+  unfold histStep
+  rw [hs]
+  simp
+
 theorem suffix_bucket (n : Str) : (n ++ cs!"_bucket").drop n.length = sBucket := by simp [sBucket]
 
 /-- a bucket line: reset test, then the bucket branch -/
@@ -127,8 +134,9 @@ theorem histStep_bucket (P : Params) (n : Str) (h : HSt) (s : OSample) (b : Nat)
           | .ok _ => .ok { h0 with group := some g, ts := s.ts,
                                    hasNegBuckets := h0.hasNegBuckets || P.cmp negBucketCmp (.flt b) (.int 0),
                                    bucket := some b, value := s.value } := by
-  obtain ⟨hname, hgrp, l, le, hl, hle, hf⟩ := hb
-  unfold histStep
+  obtain ⟨hcl, hname, hgrp, l, le, hl, hle, hf⟩ := hb
+  rw [histStep_classic P n h s hcl]
+  unfold histStepBody
   rw [groupForSample_hist n s g hgrp]
   dsimp only
   rw [hname, suffix_bucket]
@@ -151,8 +159,9 @@ theorem histStep_inGroup (P : Params) (n : Str) (h h' : HSt) (s : OSample) (g l0
     (hs : InHistGroup n g h.ts s) (hg : h.group = some l0) (hl0 : sortByKey l0 = sortByKey g)
     (hrefl : tsEq P h.ts h.ts = true) (hst : histStep P n h s = .ok h') :
     h'.bucket = h.bucket ∧ h'.value = h.value ∧ h'.ts = h.ts ∧ (∃ l, h'.group = some l ∧ sortByKey l = sortByKey g) := by
-  obtain ⟨hnb, hts, ⟨l, hgl, hle⟩, hgs⟩ := hs
-  unfold histStep at hst
+  obtain ⟨hcl, hnb, hts, ⟨l, hgl, hle⟩, hgs⟩ := hs
+  rw [histStep_classic P n h s hcl] at hst
+  unfold histStepBody at hst
   rw [groupForSample_hist n s l hgl] at hst
   dsimp only at hst
   by_cases c0 : (s.name.drop n.length).isEmpty = true
@@ -238,10 +247,11 @@ theorem group_end_fails (P : Params) (n : Str) (h : HSt) (g l0 : Labels) (post :
     simp only [histFinish, histLoop, hg, Option.isSome, if_true]
     exact hd
   | cons s post =>
-    obtain ⟨hne, l, hgl, hdiff⟩ := hend
+    obtain ⟨hcl, hne, l, hgl, hdiff⟩ := hend
     rw [histFinish_cons]
     have : isError (histStep P n h s) = true := by
-      unfold histStep
+      rw [histStep_classic P n h s hcl]
+      unfold histStepBody
       rw [groupForSample_hist n s l hgl]
       dsimp only
       have c0 : ¬ (s.name.drop n.length).isEmpty = true := by
